@@ -840,6 +840,54 @@ func (c *Ctx) rulePolicySource(rule string) {
 						}
 					}
 				}
+				// the look-up is complete: an entry with another key never ends the range (the callback
+				// continues), so the existing entry is found wherever sync.Map's order puts it
+				for _, pa := range c.enum(rule, cb, PathOpts{}) {
+					rv := pa.RetVals()
+					if rv == nil || len(rv) != 1 {
+						continue
+					}
+					pol, found := hasAtom(pa, func(at Atom) bool {
+						return at.Op == "eq" && ((at.L.IsParam("0:key") && at.R.String() == "Field[PipelineID](Param(1:def))") || (at.R.IsParam("0:key") && at.L.String() == "Field[PipelineID](Param(1:def))"))
+					})
+					if found && pol {
+						continue // the entry itself: stopping or continuing are both fine
+					}
+					// the returned value under this path's knowledge that key != def.PipelineID
+					isKeyEq := func(t *Term) (neq bool, ok bool) {
+						if t.Op != "Bin" || len(t.Args) != 2 || (t.Name != "==" && t.Name != "!=") {
+							return false, false
+						}
+						l, rr := t.Args[0], t.Args[1]
+						if !((l.IsParam("0:key") && rr.String() == "Field[PipelineID](Param(1:def))") || (rr.IsParam("0:key") && l.String() == "Field[PipelineID](Param(1:def))")) {
+							return false, false
+						}
+						return t.Name == "!=", true
+					}
+					var evalRet func(v ssa.Value, d int) (bool, bool)
+					evalRet = func(v ssa.Value, d int) (bool, bool) {
+						if b, isC := constBool(v); isC {
+							return b, true
+						}
+						if d > 4 {
+							return false, false
+						}
+						v = pa.Resolve(pa.LastStep(), v)
+						if u, isU := v.(*ssa.UnOp); isU && u.Op == token.NOT {
+							if b, ok := evalRet(u.X, d+1); ok {
+								return !b, true
+							}
+							return false, false
+						}
+						if neq, ok := isKeyEq(pa.TermsAt(pa.LastStep()).Of(v)); ok && found && !pol {
+							return neq, true // key != id on this path: (key == id) is false, (key != id) is true
+						}
+						return false, false
+					}
+					cont, isConst := evalRet(rv[0], 0)
+					r.Check(isConst && cont, rule, "RegisterPipeline:policy-lookup-complete", p.InstrPos(pa.End), "an entry with another id never ends the search for the existing pipeline",
+						"the callback that looks for the existing pipeline can stop the range at an entry with ANOTHER id ("+shortStr(pa.TermsAt(pa.LastStep()).Of(rv[0]).String(), 60)+"): with several pipelines of one event type the existing entry is only found when sync.Map happens to visit it first — its DenyOverwrite policy is then not seen and the pipeline is replaced")
+				}
 				// the range is over the graph of def.EventType
 				recv := tb.Of(rc[0].Common().Args[0])
 				if b, ok := recv.IsFieldAddr("roots"); !ok || !(strings.Contains(b.String(), "Lookup(Field[graphs](Param(0:b)),Field[EventType](Param(1:def)))") || b.Op == "Phi" || b.Op == "Alloc") {
